@@ -445,7 +445,11 @@ def run(tier: str) -> int:
         return n[0] in ("tobjL", "tobj1") or (n[0] == "tag" and any(has_tobj(c) for c in n[4]))
 
     for _ in range(ck.budget(2500, 40000)):
-        names = rng.choice([["a"], ["a", "b"], ["a", "b", "c", "dd"], ["x", "X", "x ", ""]])
+        # names that are distinct and nearly equal (case, a trailing blank, '_' for '-', a trailing underscore, a dot, composed
+        # and decomposed accents, full-width forms): "each name appears once" is about the name as given
+        names = rng.choice([["a"], ["a", "b"], ["a", "b", "c", "dd"], ["x", "X", "x ", ""],
+                            ["my-lib", "my_lib", "my-lib_", "my.lib", "My-Lib"], ["jq", "jq ", " jq", "jq\t", "JQ"],
+                            ["caf\u00e9", "cafe\u0301", "cafe", "\uff43afe"], ["d3", "d3_", "d3-", "d3.", "D3"]])
         if gen.EXTRA and rng.random() < 0.4:      # literals the source has gained (§14.4) as dependency names
             names = names + [rng.choice(gen.EXTRA)]
         versions = rng.sample(WIDE_VERSIONS, rng.choice([1, 2, 3, 5, 8]))
